@@ -305,10 +305,11 @@ theorem collected_discards {β : Type} (bk : Backend) (L : Leader β) (F : Store
           have : ¬ ((d.base : Int) ≤ (e.right : Int)) := by omega
           simp [this]
         rw [this, hlat]; rfl
+    obtain ⟨ms, fin, rest, hsd⟩ := sendData_newest hs.cur d hd hw ch
     unfold syncLoopV at he'
-    simp only [meta_static hs hx1 hx2 roff ch hle, hoff, sendData_newest hs.cur d hd hw ch, respErr,
+    simp only [meta_static hs hx1 hx2 roff ch hle, hoff, hsd, respErr,
       Out.pre_store, reduceCtorEq, if_false, if_true] at he'
-    have := aofSync_fresh bk G x ⟨.info, "", true, d.right, -1, []⟩ _ .blocks c lost hx1 hx2 hG
+    have := aofSync_fresh bk G x ⟨.info, "", true, d.right, -1, []⟩ ms fin c lost hx1 hx2 hG
       (by intro e0 h0; exact hbey e0 h0) e' he'
     simpa using this
   split
@@ -352,19 +353,103 @@ theorem clear_deletes {β : Type} (bk : Backend) (L : Leader β) (F : Store β)
       exact ⟨rfl, fun e' h => by cases h⟩
   exact ⟨by first | rfl | trivial, hdel.1, hdel.2⟩
 
-/-- **resynchronises** (progress, not only safety): a leader that serves `x`, holds `d` and
-    has stream segments; a follower that is not ahead of it — whatever else it holds: nothing,
-    a prefix, a position already collected, another id, a copy more than 10 MiB behind. If
-    the session is not cut before everything the leader has was delivered and nothing is
-    lost, it ends in the stream transfer with the follower's copy of `x` ending exactly at
-    the leader's end, including the bytes that arrived during the session (after at most
-    one snapshot transfer; `fuel ≥ 2` metaSync rounds are enough). -/
+/-- **clear_deletes**, the general form: the handshake of a serving leader announced `x`; the
+    next request meets a leader whose input has already moved to another run id than its
+    channel (selfInspection: "wait a moment", answered with `CLEAR` — this is what a source
+    fail-over or resynchronisation looks like from outside). Whatever the follower holds —
+    also a copy of `x` that is AHEAD of the leader — it deletes run id `x` and ends the
+    attempt: `HANDOVER` is not offered in this situation (the ahead test comes after the
+    self inspection), nothing is left under `x`, no snapshot is invented. -/
+theorem clear_deletes_any {β : Type} (bk : Backend) (V : Nat → View β) (F : Store β)
+    (ch : List Nat) (c lost f : Nat) (x : Id) (h0 : Serves (V 0).l1 x) (h02 : (V 0).l2.cur = x)
+    (hx1 : x ≠ "") (hx2 : x ≠ "?") (h1g : (V 1).l1.serving = true) (h1s : (V 1).l1.started = true)
+    (i0 : Id) (tl : List Id) (h1i : (V 1).l1.inputIds = i0 :: tl) (h1c : i0 ≠ (V 1).l1.cur)
+    (hwf : WF bk F) :
+    (sessionV bk V F ch (c + 2) lost (f + 1)).cls = .clear ∧
+      (sessionV bk V F ch (c + 2) lost (f + 1)).store.cur = "" ∧
+      ∀ e', (x, some e') ∉ (sessionV bk V F ch (c + 2) lost (f + 1)).store.dirs := by
+  obtain ⟨tl0, hi0⟩ := h0.ids
+  have hh : (V 0).handle "" 0 ch = ⟨[⟨.info, x, false, latest (V 0).l2.data, 0, []⟩], .eof, ch⟩ := by
+    simp [View.handle, h0.gate, h0.started, hi0, h0.cur, h02]
+  have hp := preSync_ok bk F x (latest (V 0).l2.data) hx1 hx2 hwf
+  unfold sessionV
+  simp only [hh, respErr, hx1, if_false]
+  generalize preSync bk F x (latest (V 0).l2.data) = P at hp
+  obtain ⟨G, fsp⟩ := P
+  obtain ⟨hG, hfx, _⟩ := hp
+  simp only at hG hfx
+  unfold syncLoopV
+  have hm : ∃ ms fin rest, (V 1).handle fsp.1 fsp.2 ch = ⟨ctl .clear :: ms, fin, rest⟩ := by
+    simp only [View.handle, h1g, h1s, Bool.not_true, Bool.false_eq_true, if_false, h1i, h1c, ne_eq,
+      not_false_eq_true, if_true, List.cons_append, List.nil_append]
+    exact ⟨_, _, _, rfl⟩
+  obtain ⟨ms, fin, rest, hm⟩ := hm
+  rw [hm, hfx]
+  simp only [ctl, respErr, Out.pre, if_true]
+  have hdel : (delRunId bk G x).cur = "" ∧ ∀ e', (x, some e') ∉ (delRunId bk G x).dirs := by
+    cases bk with
+    | disk =>
+      rw [delRunId_disk_has (special_false hx1 hx2) (hG.2.1 rfl)]
+      exact ⟨rfl, fun e' h => (mem_dropKey.mp h).2 rfl⟩
+    | mem =>
+      rw [← hG.1, delRunId_mem_cur]
+      exact ⟨rfl, fun e' h => by cases h⟩
+  exact ⟨by first | rfl | trivial, hdel.1, hdel.2⟩
+
+/-- a session cut right after the handshake leaves exactly what `preSync` decided -/
+theorem session_cut_after_handshake {β : Type} (bk : Backend) (L : Leader β) (F : Store β)
+    (ch : List Nat) (lost fuel : Nat) (x : Id) (hs : Serves L x) (hx1 : x ≠ "") :
+    (session bk L F ch 1 lost (fuel + 1)).store = (preSync bk F x (latest L.data)).1 := by
+  rw [session_static hs hx1, Out.pre_store]
+  unfold syncLoopV
+  rfl
+
+/-- **gap_discards**, session level: same run id, the leader more than 10 MiB ahead. Already
+    when only the handshake has been delivered the follower's copy is gone. -/
+theorem gap_discards_session {β : Type} (bk : Backend) (L : Leader β) (F : Store β) (ch : List Nat)
+    (lost fuel : Nat) (x : Id) (e : Data β) (hs : Serves L x) (hx1 : x ≠ "") (hx2 : x ≠ "?")
+    (hwf : WF bk F) (hF : F.get x = some (some e)) (hm : bk = .mem → F.cur = x)
+    (hgap : latest L.data - (e.right : Int) > tenMB) :
+    (session bk L F ch 1 lost (fuel + 1)).store.curData = none ∧
+      (session bk L F ch 1 lost (fuel + 1)).store.cur = x := by
+  rw [session_cut_after_handshake bk L F ch lost fuel x hs hx1]
+  have := (gap_discards bk F x e (latest L.data) hx1 hx2 hwf hF hm).1 hgap
+  exact ⟨this.1, this.2.1⟩
+
+/-- **offered leadership**, the leader's half: whenever the leader answers a request with
+    `HANDOVER` (whatever its state, changing or not), `ServiceReplica` returns a role error and
+    `SyncerCmd.Sync` stops this input's syncer — which is what makes `runCluster` resign the
+    lease so that the follower's next campaign can succeed. (What `runCluster` does with the
+    stopped syncer is outside the model: see the check's `partial`.) -/
+theorem handover_leader_steps_down {β : Type} (v : View β) (rid : Id) (roff : Int) (ch : List Nat)
+    (h : ∃ m ∈ (v.handle rid roff ch).msgs, m.code = .handover) :
+    syncReact (v.handle rid roff ch).fin = .stopSyncer :=
+  handover_stops_leader v rid roff ch h
+
+/-- the outcome "caught up": the session ended inside the stream transfer with nothing left
+    to fetch, and the follower's current copy — if it holds one — ends exactly at the leader's
+    end including what arrived during the session. NOTE what this does not say: a follower
+    that had to discard (other id, collected position, more than 10 MiB behind, nothing held)
+    starts at the leader's newest offset, so "caught up" can mean "positioned at the leader's
+    tip holding only what arrived since" — possibly nothing (`curData = none`, then nothing
+    arrived: `tail = []`). It holds the leader's older bytes only where its own copy joined. -/
+def AtLeaderTip {β : Type} (L : Leader β) (d : Data β) (o : Out β) : Prop :=
+  o.stage = .aof ∧ o.cls = .cut ∧
+    (∀ e', o.store.curData = some e' → (e'.right : Int) = (d.right : Int) + L.tail.length) ∧
+    (o.store.curData = none → L.tail = [])
+
+/-- **resynchronises** (progress, not only safety): a leader that serves `x`, holds `d`, has
+    stream segments and is not stopped; a follower that is not ahead of it — whatever else it
+    holds: nothing, a prefix, a position already collected, another id, a copy more than
+    10 MiB behind. If the session is not cut before everything the leader has was delivered
+    and nothing is lost, it ends `AtLeaderTip` (after at most one snapshot transfer; `fuel ≥ 2`
+    metaSync rounds are enough). See `AtLeaderTip` for what that does and does not mean. -/
 theorem resynchronises {β : Type} (bk : Backend) (L : Leader β) (F : Store β) (ch : List Nat)
-    (c fuel : Nat) (x : Id) (d : Data β) (hs : Serves L x) (hx1 : x ≠ "") (hx2 : x ≠ "?")
-    (hd : L.data = some d) (hw : L.hasSegs d = true) (hwf : WF bk F)
+    (c fuel : Nat) (x : Id) (d : Data β) (hs : Serves L x) (hh : L.halt = none) (hx1 : x ≠ "")
+    (hx2 : x ≠ "?") (hd : L.data = some d) (hw : L.hasSegs d = true) (hwf : WF bk F)
     (hna : ∀ e, F.get x = some (some e) → e.right ≤ d.right)
     (hc : (d.snap.getD []).length + 1 + d.bytes.length + L.tail.length ≤ c) :
-    Reached L d (session bk L F ch (c + 2) 0 (fuel + 2)) := by
+    AtLeaderTip L d (session bk L F ch (c + 2) 0 (fuel + 2)) := by
   have hlat : latest L.data = (d.right : Int) := by rw [hd]; rfl
   rw [session_static hs hx1, hlat]
   have hp := preSync_ok bk F x (d.right : Int) hx1 hx2 hwf
@@ -376,9 +461,63 @@ theorem resynchronises {β : Type} (bk : Backend) (L : Leader β) (F : Store β)
   obtain ⟨hG, hfx, _⟩ := hp
   simp only at hG hfx hpos hle
   subst hfx
-  have := syncLoop_reach bk L fx d hs hx1 hx2 hd hw fuel 1 c ch G roff hG hle
+  have := syncLoop_reach bk L fx d hs hh hx1 hx2 hd hw fuel 1 c ch G roff hG hle
     (by intro e he; exact (hpos e he).symm) hc
-  simpa [Reached] using this
+  simpa [Reached, AtLeaderTip] using this
+
+/-- … and where the follower's own copy joins the leader's (same id, its end inside the
+    leader's stream, not more than 10 MiB behind) it KEEPS that copy and extends it: after the
+    uncut session it holds `[e.base, leader's end)`. -/
+theorem resynchronises_keeps_copy {β : Type} (bk : Backend) (L : Leader β) (F : Store β) (ch : List Nat)
+    (c fuel : Nat) (x : Id) (d e : Data β) (hs : Serves L x) (hh : L.halt = none) (hx1 : x ≠ "")
+    (hx2 : x ≠ "?") (hd : L.data = some d) (hw : L.hasSegs d = true) (hwf : WF bk F)
+    (hF : F.get x = some (some e)) (hm : bk = .mem → F.cur = x)
+    (hjoin : d.base ≤ e.right ∧ e.right ≤ d.right) (hnear : ¬ (d.right : Int) - (e.right : Int) > tenMB)
+    (hc : d.bytes.length + L.tail.length ≤ c) :
+    ∃ e', (session bk L F ch (c + 2) 0 (fuel + 1)).store.curData = some e' ∧ e'.base = e.base ∧
+      e'.snap = e.snap ∧ (e'.right : Int) = (d.right : Int) + L.tail.length ∧
+      e'.bytes.take e.bytes.length = e.bytes := by
+  have hlat : latest L.data = (d.right : Int) := by rw [hd]; rfl
+  have hat := at_sameid bk F x e hwf hF hm
+  have hcd := curData_sameid F x e hF
+  rw [session_static hs hx1, Out.pre_store, hlat, preSync_sameid bk F x e _ hx1 hx2 hwf hF hm,
+    if_neg hnear]
+  simp only
+  -- the leader answers with the stream from the follower's own end
+  have hin : L.inAof d (e.right : Int) = true := by
+    simp only [Leader.inAof, hw, Bool.true_and, Bool.and_eq_true, Data.right]
+    simp only [Data.right] at hjoin
+    constructor <;> (apply decide_eq_true; omega)
+  have hv : L.valid x (e.right : Int) = true := by
+    simp only [Leader.valid, hs.cur, decide_true, Bool.true_and, hd, hin, Bool.true_or]
+  have hnh : ¬ (e.right : Int) - latest L.data > 0 := by rw [hlat]; omega
+  unfold syncLoopV
+  simp only
+  rw [meta_static hs hx1 hx2 _ ch hnh, hv]
+  simp only [if_true]
+  rw [sendData_aof_eval hs.cur hh d hd _ hin ch]
+  simp only [respErr, reduceCtorEq, if_false, if_true, Out.pre_store]
+  -- aofSync on the kept copy: the writer is opened at its end
+  simp only [aofSync]
+  rw [startPoint_at bk _ x hx1 hx2 hat, startPoint_at_off bk _ x hx1 hx2 hat e hcd]
+  have : (decide ((e.right : Int) > (e.right : Int)) && decide (x ≠ "?")) = false := by simp
+  simp only [this, Bool.false_eq_true, if_false, Int.toNat_natCast]
+  have hk : ((e.right : Int) - (d.base : Int)).toNat ≤ d.bytes.length := by
+    simp only [Data.right] at hjoin ⊢; omega
+  have hlen := chop_length_le ch (d.bytes.drop ((e.right : Int) - (d.base : Int)).toNat ++ L.tail)
+  have hfl := chop_flatten ch (d.bytes.drop ((e.right : Int) - (d.base : Int)).toNat ++ L.tail)
+  generalize (chop ch (d.bytes.drop ((e.right : Int) - (d.base : Int)).toNat ++ L.tail)).1 = cs at hlen hfl
+  simp only [List.length_append, List.length_drop] at hlen
+  have ha := aofLoop_conts_all c (e.right : Int) cs (by omega)
+  unfold aofRecv
+  simp only [ha.1, Nat.sub_zero, List.take_length]
+  unfold aofWrite
+  simp only [hcd, if_true, setCur_curData]
+  refine ⟨_, rfl, rfl, rfl, ?_, ?_⟩
+  · simp only [Data.right, List.length_append, hfl, List.length_drop]
+    simp only [Data.right] at hjoin
+    omega
+  · simp
 
 /-- keeping bytes under another id is faithful exactly when the two histories agree on
     the kept range (the PSYNC2 fail-over prefix) — which no history-independent rule can
@@ -431,12 +570,12 @@ theorem ahead_gets_handover {β : Type} (bk : Backend) (L : Leader β) (F : Stor
     have : ¬ latest L.data - (d.right : Int) > 0 := by omega
     rw [if_neg this]
   -- metaSync: HANDOVER
-  have hh2 : L.handle x (d.right : Int) ch = ⟨[⟨.handover, x, false, latest L.data, 0, []⟩], .err, ch⟩ := by
+  have hh2 : L.handle x (d.right : Int) ch = ⟨[⟨.handover, x, false, latest L.data, 0, []⟩], .err .role, ch⟩ := by
     have : ((x = "") || (x = "?")) = false := by simp [hx1, hx2]
     simp [Leader.handle, View.handle, View.const, hg, hs, hi, hc, this, hahead]
   have hh' : (View.const L).handle "" 0 ch = ⟨[⟨.info, x, false, latest L.data, 0, []⟩], .eof, ch⟩ := hh
   have hh2' : (View.const L).handle x (d.right : Int) ch =
-      ⟨[⟨.handover, x, false, latest L.data, 0, []⟩], .err, ch⟩ := hh2
+      ⟨[⟨.handover, x, false, latest L.data, 0, []⟩], .err .role, ch⟩ := hh2
   simp only [session, sessionV, hh', respErr, Out.pre, hx1, if_false, hpre, syncLoopV, hh2']
   simp
 
@@ -449,7 +588,7 @@ def hEx : Hist Nat where
   byte := fun id o => if id = "idA" then o else o + 500
   snap := fun id o => if id = "idA" then [o, o] else [o + 500]
 
-def lEx : Leader Nat := ⟨true, true, ["idA"], "idA", some ⟨10, [10, 11, 12, 13, 14], some [10, 10]⟩, true, []⟩
+def lEx : Leader Nat := ⟨true, true, ["idA"], "idA", some ⟨10, [10, 11, 12, 13, 14], some [10, 10]⟩, true, [], none⟩
 /-- the same leader receiving two more bytes while its stream reader is open -/
 def lGrow : Leader Nat := { lEx with tail := [15, 16] }
 /-- the follower process was following run id B (bytes 8..15 of B) -/
@@ -498,6 +637,32 @@ example : (session .mem lEx fPrefix [1, 2] 4 2 3).store.dirs = [("idA", some ⟨
 -- request: the (repaired) leader answers ERROR, nothing of idB reaches the follower
 example : (sessionV .disk (fun n => if n = 1 then ⟨lEx, lEx, { lEx with cur := "idB", inputIds := ["idB"], data := some ⟨20, [], some [520]⟩ },
       { lEx with cur := "idB", inputIds := ["idB"], data := some ⟨20, [], some [520]⟩ }⟩ else View.const lEx) ⟨"", []⟩ [] 10 0 3).cls = .error := by decide
+-- the leader is stopped after one chunk of the stream: clean end of stream, or FAULT — a prefix either way
+example : (session .disk { lEx with halt := some (1, false) } fPrefix [1, 1, 1] 10 0 3).store.dirs
+    = [("idA", some ⟨9, [9, 10, 11, 12], none⟩)] ∧
+    (session .disk { lEx with halt := some (1, false) } fPrefix [1, 1, 1] 10 0 3).cls = .eof := by decide
+example : (session .mem { lEx with halt := some (2, true) } fPrefix [1, 1, 1] 10 0 3).store.dirs
+    = [("idA", some ⟨9, [9, 10, 11, 12, 13], none⟩)] ∧
+    (session .mem { lEx with halt := some (2, true) } fPrefix [1, 1, 1] 10 0 3).cls = .fault := by decide
+-- … stopped in the middle of the snapshot: nothing is kept
+example : (session .disk { lEx with halt := some (1, false) } fOld [1] 10 0 3).store.dirs = [("idA", none)] ∧
+    (session .disk { lEx with halt := some (1, false) } fOld [1] 10 0 3).cls = .eof := by decide
+-- "caught up" may mean holding nothing: another id is discarded, the leader has nothing new
+example : AtLeaderTip lEx ⟨10, [10, 11, 12, 13, 14], some [10, 10]⟩ (session .disk lEx fOther [] 20 0 3) ∧
+    (session .disk lEx fOther [] 20 0 3).store.curData = none := by
+  have hn : (session .disk lEx fOther [] 20 0 3).store.curData = none := by decide
+  refine ⟨⟨by decide, by decide, ?_, ?_⟩, hn⟩
+  · intro e' he'; rw [hn] at he'; cases he'
+  · intro _; decide
+-- CLEAR ("wait a moment": the leader's input already follows idC) to a follower that is AHEAD: the copy is deleted
+example : (sessionV .disk (fun n => if n = 0 then View.const lEx else View.const { lEx with inputIds := ["idC", "idA"] })
+      fAhead [] 10 0 3).cls = .clear ∧
+    (sessionV .disk (fun n => if n = 0 then View.const lEx else View.const { lEx with inputIds := ["idC", "idA"] })
+      fAhead [] 10 0 3).store.dirs = [] := by decide
+-- HANDOVER makes Sync stop the leader's syncer; an empty input id list restarts the process
+example : syncReact ((View.const lEx).handle "idA" 99 []).fin = .stopSyncer := by decide
+example : syncReact ((View.const { lEx with inputIds := [] }).handle "idA" 12 []).fin = .stopAll := by decide
+example : syncReact ((View.const lEx).handle "idA" 12 []).fin = .nothing := by decide
 -- ahead: HANDOVER, cache untouched
 example : (session .disk lEx fAhead [] 10 0 3).cls = .takeover ∧ (session .disk lEx fAhead [] 10 0 3).store.dirs = fAhead.dirs := by decide
 -- the unrepaired relabelling would not be faithful: B's bytes are not A's
